@@ -83,6 +83,20 @@ def _allocators(mod):
         _ALLOC[id(mod)] = allocator_functions(mod)
     return _ALLOC[id(mod)]
 
+def _only_fresh_blocks(mod, fn, ac):
+    """the address is a parameter of a static initialiser all of whose callers hand it a block they have just obtained from an allocator"""
+    if ac['kind'] != 'arg' or not fn.internal:
+        return False
+    k = int(ac['arg'][1:])
+    sites = [(g, i) for g in mod.defined.values() for i in g.real_insts() if i.op == 'call' and i.callee == fn.name and k < len(i.ops)]
+    if not sites:
+        return False
+    for g, i in sites:
+        a2 = util.addr_class(mod, g, i.ops[k])
+        if not (a2['kind'] == 'call' and a2['inst'].callee in _allocators(mod) and not a2['path']):
+            return False
+    return True
+
 def _helper_actuals(mod, eng, name, seen=None):
     """address classes of the actual arguments bound to the atomic-address parameters of generic helper `name`, following helpers that
     forward their own parameter"""
@@ -272,7 +286,7 @@ def classify(ctx, rep):
                     free[key] = 'read under counter_mu'
                 else:
                     free[key] = 'report-only read of the counter value'
-            elif ac['kind'] == 'call' and ac['inst'].callee in _allocators(mod):
+            elif (ac['kind'] == 'call' and ac['inst'].callee in _allocators(mod)) or _only_fresh_blocks(mod, fn, ac):
                 free[key] = 'initialising store to a counter not yet published'
             else:
                 # a store to the value of a published counter (an update written as load + store under counter_mu, say): the lock-free poll
